@@ -159,3 +159,22 @@ func VxH_C09_wellformed() {
 		vx.Assert("display-none-generates-no-box:x-k", !vxHasTag(root, "x-k"))
 	}
 }
+
+// mis-nested table parts: any table part display inside any (inline-)table or non-table parent
+// still yields a well-formed tree (anonymous boxes supplied for the missing levels).
+func VxH_C09_table_parts() {
+	parents := []string{"table", "inline-table", "block", "inline", "table-row", "table-row-group", "flex"}
+	parts := []string{"table-column", "table-column-group", "table-row", "table-cell", "table-caption", "table-row-group", "table-header-group", "inline", "block"}
+	dj := parents[vx.Choose("display-j", len(parents))]
+	dk := parts[vx.Choose("display-k", len(parts))]
+	di := parts[vx.Choose("display-i", len(parts))]
+	css := "x-p{display:block} x-j{display:" + dj + "} x-k{display:" + dk + "} x-i{display:" + di + "} "
+	src := "<html><head><style>" + css + "</style></head><body><x-p><x-j><x-k></x-k><x-i></x-i></x-j></x-p></body></html>"
+	doc, err := tree.NewHTML(utils.InputString(src), "", nil, "")
+	if err != nil {
+		panic(err)
+	}
+	root := vxBuild(doc)
+	vx.Reach("built")
+	vxWellFormed(root, nil)
+}
